@@ -11,5 +11,5 @@ CONSTANTS
   AsCodedEdgeDelta = FALSE
   AsCodedNewEdge = FALSE
   ConcatKey <- ConcatKeyImpl
-INVARIANTS NewestWins OneRowPerIdentity HashOK AcyclicInv RootNeverDeleted RebroadcastExact RefusedLeavesNoTrace ReadsAgree MovesAtomic MirrorsAtomic
+INVARIANTS NewestWins OneRowPerIdentity HashOK AcyclicInv RootNeverDeleted RebroadcastExact RefusedLeavesNoTrace ReadsAgree MovesAtomic MirrorsAtomic DupTrees
 VIEW View
